@@ -531,7 +531,7 @@ pub fn def(ctx: &Ctx) -> PropertyDef {
         }),
     });
     // the sketch as the cache configures and feeds it (builder -> TinyLFU; reads -> access buffer -> consumer)
-    for (counters, buffer) in [(3u64, 1usize), (5, 2), (6, 1), (10, 1), (10, 3)] {
+    for (counters, buffer) in [(3u64, 1usize), (5, 2), (6, 1), (10, 1), (10, 3), (3, 5), (2, 4)] {
         let name = cache_spec(ctx, counters, buffer).name;
         scenarios.push(crate::harness::seq::seq_scenario(move |c| cache_spec(c, counters, buffer), &name));
     }
